@@ -826,7 +826,7 @@ fn c02_o4s_signed_peers_glue_probed() {
 //@ cap: 800
 //@ rss: 12.0
 //@ time: 320
-//@ mem: 24
+//@ mem: 40
 //@ unwindset_raw: memcmp.0:22
 //@ standins: tracing lru vcoll
 //@ also: C08 C09
